@@ -13,39 +13,45 @@
 (*           header present - and no offer of a response naming an         *)
 (*           unsupported hash algorithm may ever be used                   *)
 (*   lockreq a lock / unlock / list / verify request with its preconditions*)
+(*           and, for the two listings, its paging: a cursor is one the    *)
+(*           server handed out (next_cursor) for the same kind of listing  *)
+(*           in this run, a limit is absent or a positive integer          *)
 (***************************************************************************)
 EXTENDS Integers, Sequences, FiniteSets, TLC, Json, IOUtils
 
 Trace == ndJsonDeserialize(IOEnv.TRACE)
 
-VARIABLES l, asked, offered, poisoned
-vars == <<l, asked, offered, poisoned>>
+VARIABLES l, asked, offered, poisoned, cursors
+vars == <<l, asked, offered, poisoned, cursors>>
 E == Trace[l]
 Is(e) == l <= Len(Trace) /\ E.ev = e /\ l' = l + 1
 
 MethodFor(rel) == CASE rel = "download" -> "GET" [] rel = "upload" -> "PUT" [] rel = "verify" -> "POST" [] OTHER -> "?"
 
-Init  == l = 1 /\ asked = {} /\ offered = {} /\ poisoned = FALSE
-Reset == Is("reset") /\ asked' = {} /\ offered' = {} /\ poisoned' = FALSE
+Init  == l = 1 /\ asked = {} /\ offered = {} /\ poisoned = FALSE /\ cursors = {}
+Reset == Is("reset") /\ asked' = {} /\ offered' = {} /\ poisoned' = FALSE /\ cursors' = {}
 
 Batch == /\ Is("batch")
          /\ E.schemaOk /\ E.acceptOk /\ E.ctypeOk /\ E.sizesOk       \* Headers + schema preconditions
          /\ E.op \in {"download", "upload"}
          /\ asked' = asked \cup {E.oids[i] : i \in DOMAIN E.oids}
-         /\ UNCHANGED <<offered, poisoned>>
+         /\ UNCHANGED <<offered, poisoned, cursors>>
 Offer == /\ Is("offer")
          /\ E.oid \in asked                                          \* the server answers about what was asked
          /\ offered' = offered \cup {<<E.oid, E.rel, E.href>>}
-         /\ UNCHANGED <<asked, poisoned>>
-HashAlgo == Is("hashalgo") /\ poisoned' = TRUE /\ offered' = {} /\ UNCHANGED asked
+         /\ UNCHANGED <<asked, poisoned, cursors>>
+HashAlgo == Is("hashalgo") /\ poisoned' = TRUE /\ offered' = {} /\ UNCHANGED <<asked, cursors>>
 Use   == /\ Is("use")
          /\ ~poisoned                                                \* HashAlgoRejected
          /\ <<E.oid, E.rel, E.href>> \in offered                     \* ActionAsOffered: same object, same URL
          /\ E.method = MethodFor(E.rel)
          /\ E.hdrOk                                                  \* every offered header is sent
          /\ (E.rel = "verify" => (E.bodyOk /\ E.acceptOk /\ E.ctypeOk))
-         /\ UNCHANGED <<asked, offered, poisoned>>
+         /\ UNCHANGED <<asked, offered, poisoned, cursors>>
 LockReq == /\ Is("lockreq") /\ E.schemaOk /\ E.acceptOk /\ E.ctypeOk
+           /\ (E.cursor = "" \/ <<E.kind, E.cursor>> \in cursors)      \* CursorAsHandedOut
+           /\ E.limitOk
+           /\ cursors' = IF E.next = "" THEN cursors ELSE cursors \cup {<<E.kind, E.next>>}
            /\ UNCHANGED <<asked, offered, poisoned>>
 Next == Reset \/ Batch \/ Offer \/ HashAlgo \/ Use \/ LockReq
 Spec == Init /\ [][Next]_vars
